@@ -18,6 +18,7 @@ import (
 	"fmt"
 	"math/rand/v2"
 	"sort"
+	"time"
 
 	"github.com/oasisprotocol/oasis-core/go/common/crypto/hash"
 	"github.com/oasisprotocol/oasis-core/go/storage/mkvs"
@@ -280,3 +281,131 @@ func refRootOf(ctx context.Context, m map[string][]byte) hash.Hash {
 }
 
 var _ = rand.IntN
+
+// streamPruneCase: the write log of a version with more entries than the streaming iterator
+// buffers is read slowly while that version is pruned. Failing to serve a log whose version is
+// gone is fine; a log that ENDS WITHOUT AN ERROR must be complete. (The pause only lets the
+// producer fill its buffer; the verdict does not depend on it.)
+func (rn *runner) streamPruneCase(idx int, backend string, st stats) {
+	r := rn.r
+	rng := r.Rand(710, uint64(idx))
+	ctx := context.Background()
+	ndb, err := openDB(backend)
+	if err != nil {
+		r.Inconclusive("stream case: open %s: %v", backend, err)
+		return
+	}
+	defer ndb.Close()
+	n := 120 + rng.IntN(200)
+	w := map[string]any{"seed": r.Seed, "stream_case": idx, "backend": backend, "entries": n}
+	fail := func(sig, detail string) {
+		r.Violation("c13/"+backend+"/stream-during-prune/"+sig, fmt.Sprintf("write log of %d entries read slowly while its version is pruned: %s", n, detail), w)
+	}
+	want := map[string][]byte{}
+	tree := mkvs.New(nil, ndb, node.RootTypeState, mkvs.Capacity(0, 0))
+	defer tree.Close()
+	for i := 0; i < n; i++ {
+		k, v := fmt.Sprintf("key %04d", i), []byte(fmt.Sprintf("value %d-%d", i, rng.IntN(1000)))
+		if err = tree.Insert(ctx, []byte(k), v); err != nil {
+			fail("setup-error", err.Error())
+			return
+		}
+		want[k] = v
+	}
+	_, h1, err := tree.Commit(ctx, testNs, 1)
+	if err != nil {
+		fail("setup-error", err.Error())
+		return
+	}
+	r1 := node.Root{Namespace: testNs, Version: 1, Type: node.RootTypeState, Hash: h1}
+	if err = ndb.Finalize([]node.Root{r1}); err != nil {
+		fail("setup-error", err.Error())
+		return
+	}
+	if err = tree.Insert(ctx, []byte("another key"), []byte("another value")); err != nil {
+		fail("setup-error", err.Error())
+		return
+	}
+	_, h2, err := tree.Commit(ctx, testNs, 2)
+	if err != nil {
+		fail("setup-error", err.Error())
+		return
+	}
+	if err = ndb.Finalize([]node.Root{{Namespace: testNs, Version: 2, Type: node.RootTypeState, Hash: h2}}); err != nil {
+		fail("setup-error", err.Error())
+		return
+	}
+	empty := node.Root{Namespace: testNs, Version: 1, Type: node.RootTypeState}
+	empty.Hash.Empty()
+	it, err := ndb.GetWriteLog(ctx, empty, r1)
+	if err != nil {
+		fail("getwritelog-error", err.Error())
+		return
+	}
+	got := map[string][]byte{}
+	read := 0
+	var readErr error
+	readOne := func() bool {
+		more, nerr := it.Next()
+		if nerr != nil {
+			readErr = nerr
+			return false
+		}
+		if !more {
+			return false
+		}
+		e, verr := it.Value()
+		if verr != nil {
+			readErr = verr
+			return false
+		}
+		if e.Value == nil {
+			delete(got, string(e.Key))
+		} else {
+			got[string(e.Key)] = e.Value
+		}
+		read++
+		return true
+	}
+	if !readOne() {
+		fail("first-entry-not-served", fmt.Sprint(readErr))
+		return
+	}
+	time.Sleep(150 * time.Millisecond)
+	if err = ndb.Prune(1); err != nil {
+		fail("prune-error", err.Error())
+		return
+	}
+	// One more entry, then another pause: the producer refills its buffer and meets the pruned
+	// nodes while the buffer is full.
+	if readOne() {
+		time.Sleep(150 * time.Millisecond)
+		for readOne() {
+		}
+	}
+	st.add("stream-during-prune/cases/"+backend, 1)
+	if readErr != nil {
+		st.add("stream-during-prune/refused-after-prune/"+backend, 1)
+		return
+	}
+	st.add("stream-during-prune/served-to-the-end/"+backend, 1)
+	bad := 0
+	for k, v := range want {
+		if g, ok := got[k]; !ok || !bytes.Equal(g, v) {
+			bad++
+		}
+	}
+	if bad > 0 || len(got) != len(want) {
+		w["entries_served"] = read
+		fail("log-ended-without-error-but-incomplete", fmt.Sprintf("the iterator ended without an error after %d of %d entries; applied to the empty map the served log lacks or misstates %d keys", read, n, bad+abs(len(got)-len(want))))
+		return
+	}
+	r.Nontrivial(fmt.Sprintf("stream-during-prune/%s/%d", backend, idx))
+}
+
+func abs(x int) int {
+	if x < 0 {
+		return -x
+	}
+	return x
+}
